@@ -78,23 +78,24 @@ theorem stream_walk {s : Seg} {l : List Nat} (h : Linked s l) (hc : Clean s l) :
 
 /-- **C03 (rule actions).** Any rule action followed by its garbage collection maps well-formed streams to well-formed
 streams: if `l` is the stream before (and the slot map's current cell holds one of its slots, as the matcher guarantees),
-there is a list `l'` that is the stream afterwards. (`hh`: the high-water mark, when set, is a slot of the stream; the
+there is a list `l'` that is the stream afterwards. (`hh`: the high-water mark, when set, is a slot of the stream; `ha`: no slot in use is lost – every live slot that is
+not a temporary copy is in the stream; the
 pipeline theorem `shape_stream_wf` below discharges both side conditions for every rule the engine runs.) -/
 theorem action_stream_wf {is : List Instr} {dl : Bool} {mr : Nat} {data : List Nat} {ctx : Ctx} {l : List Nat}
     (hl : Linked ctx.seg l) (hc : Clean ctx.seg l) (hh : ∀ x, ctx.highwater = some x → x ∈ l)
-    (hmap : ∀ x, ctx.smap.getD ((ctx.context : Int) + 1).toNat none = some x → x ∈ l)
+    (hmap : ∀ x, ctx.smap.getD ((ctx.context : Int) + 1).toNat none = some x → x ∈ l) (ha : Alloc ctx.seg l)
     {r : Int} {st : Status} {so : Option Nat} {c : Ctx}
     (e : doAction is dl mr data ctx = .ok (r, st, so, c)) :
-    ∃ l', Linked c.seg l' ∧ Clean c.seg l' := doAction_stream hl hc hh hmap e
+    ∃ l', Linked c.seg l' ∧ Clean c.seg l' := doAction_stream hl hc hh hmap ha e
 
 /-- the two together: what a client observes after any rule action -/
 theorem action_then_walk {is : List Instr} {dl : Bool} {mr : Nat} {data : List Nat} {ctx : Ctx} {l : List Nat}
     (hl : Linked ctx.seg l) (hc : Clean ctx.seg l) (hh : ∀ x, ctx.highwater = some x → x ∈ l)
-    (hmap : ∀ x, ctx.smap.getD ((ctx.context : Int) + 1).toNat none = some x → x ∈ l)
+    (hmap : ∀ x, ctx.smap.getD ((ctx.context : Int) + 1).toNat none = some x → x ∈ l) (ha : Alloc ctx.seg l)
     {r : Int} {st : Status} {so : Option Nat} {c : Ctx}
     (e : doAction is dl mr data ctx = .ok (r, st, so, c)) :
     ∃ l', walk c.seg (l'.length + 1) c.seg.first = l' ∧ l'.Nodup ∧ (l'.length : Int) = c.seg.numGlyphs ∧ c.seg.last = l'.getLast? := by
-  obtain ⟨l', h1, h2⟩ := action_stream_wf hl hc hh hmap e
+  obtain ⟨l', h1, h2⟩ := action_stream_wf hl hc hh hmap ha e
   have := stream_walk h1 h2
   exact ⟨l', this.1, this.2.1, this.2.2.1, this.2.2.2.1⟩
 
@@ -107,10 +108,12 @@ theorem shape_stream_wf (font : Pass.Font) (text : List Nat) (fuel : Nat) {c : C
     ∃ l, walk c.seg (l.length + 1) c.seg.first = l ∧ l.Nodup ∧ (l.length : Int) = c.seg.numGlyphs ∧ c.seg.last = l.getLast? ∧
       (∀ a b x y, l = a ++ x :: y :: b → (c.seg.get x).next = some y ∧ (c.seg.get y).prev = some x) ∧
       (∀ x, l.head? = some x → (c.seg.get x).prev = none) ∧ (∀ x, l.getLast? = some x → (c.seg.get x).next = none) ∧
-      (∀ x ∈ l, (c.seg.get x).deleted = false ∧ (c.seg.get x).copied = false) := by
-  obtain ⟨l, h1, h2⟩ := Pass.shape_wf font text fuel e
+      (∀ x ∈ l, (c.seg.get x).deleted = false ∧ (c.seg.get x).copied = false) ∧
+      -- and no slot is lost: every slot in use that is neither marked deleted nor a temporary copy is in the stream
+      (∀ j, j < c.seg.slots.size → j ∉ c.seg.free → (c.seg.get j).copied = false → (c.seg.get j).deleted = false → j ∈ l) := by
+  obtain ⟨l, h1, h2, h3⟩ := Pass.shape_wf font text fuel e
   have := stream_walk h1 h2
-  exact ⟨l, this.1, this.2.1, this.2.2.1, this.2.2.2.1, this.2.2.2.2.1, this.2.2.2.2.2.1, this.2.2.2.2.2.2, h2.live⟩
+  exact ⟨l, this.1, this.2.1, this.2.2.1, this.2.2.2.1, this.2.2.2.2.1, this.2.2.2.2.2.1, this.2.2.2.2.2.2, h2.live, h3⟩
 
 /-! non-vacuity: fonts whose rules insert and delete slots, shaped by the model (evaluated by the kernel) -/
 section examples
